@@ -1178,6 +1178,13 @@ namespace ipr::impl {
             throw std::domain_error
                ("type_factoy::get_qualified: no qualifier");
 
+         // Maintain the invariant Qualified(cv2, Qualified(cv1, T)) = Qualified(cv1 | cv2, T):
+         // the main variant is never itself a qualified type.
+         if (t.category == Category_code::Qualified) {
+            auto& qt = static_cast<const ipr::Qualified&>(t);
+            return get_qualified(q | qt.qualifiers(), qt.main_variant());
+         }
+
          using rep = impl::Qualified::Rep;
          return *qualifieds.insert(rep{ q, t }, binary_compare());
       }
